@@ -319,6 +319,9 @@ func c09(c *core.Check) {
 	c09Spans(c)
 	r6 := c.Rule("R6", "no call passes two same-typed arguments under each other's parameter names (swapped arguments): every pair of arguments named after the callee's parameters is aligned with them", 4)
 	argNameRule(c, r6, "html/boxes", nil, 7)
+	r7 := c.Rule("R7", "table wrapping gives every cell its own grid slot: GridX is the cursor after skipping (in a loop) the columns occupied by cells spanning from previous rows, the cursor advances by Colspan, Rowspan is clamped to the rows left in the group and the spanned rows mark exactly the cell's columns", 5)
+	tableSlotRule(c, r7)
+	c09ClassTests(c)
 }
 
 // c09Spans: a table cell spans at least one column (HTML 5: colspan is clamped to >= 1), while rowspan may be 0.
@@ -720,4 +723,83 @@ func c12(c *core.Check) {
 	c12Orphans(c)
 	r4b := c.Rule("R4", "no call passes two same-typed arguments under each other's parameter names (swapped arguments): every pair of arguments named after the callee's parameters is aligned with them", 26)
 	argNameRule(c, r4b, "html/layout", map[string]bool{"blocks.go": true, "pages.go": true, "columns.go": true}, 40)
+}
+
+// c09ClassTests: the box classes tested by the anonymous-box passes are the classes the CSS rules name.
+func c09ClassTests(c *core.Check) {
+	p := c.Prog
+	r := c.Rule("R8", "the anonymous-box passes test the box classes CSS 2.1 names: an inline box is split around every in-flow block-level child (§9.2.1.1: the class is block-level, not block), inline-level children of a block container are wrapped in line boxes (§9.2.2.1), and the table fix-ups test table, row group, row, cell, column and inline boxes as §17.2.1 lists them", 4)
+	want := map[string][]string{
+		"innerBlockInInline": {"BlockLevelT", "InlineT"},
+		"InlineInBlock":      {"BlockContainerT", "InlineLevelT", "LineT"},
+		"BlockInInline":      {"LineT"},
+		"tableBoxesChildren": {"InlineT", "TableCellT", "TableColumnT", "TableRowGroupT", "TableRowT", "TableT"},
+	}
+	found := map[string]map[string]bool{}
+	typeNames := map[string]string{} // value of a BoxType constant -> its name
+	if pk := p.ByPath["html/boxes"]; pk != nil {
+		sc := pk.Types.Scope()
+		for _, nm := range sc.Names() {
+			if cst, ok := sc.Lookup(nm).(*types.Const); ok {
+				if named, ok := cst.Type().(*types.Named); ok && named.Obj().Name() == "BoxType" {
+					typeNames[cst.Val().ExactString()] = nm
+				}
+			}
+		}
+	}
+	if len(typeNames) == 0 {
+		r.Anchor("html/boxes: constants of type BoxType")
+		return
+	}
+	for _, fn := range p.FuncsOfPkg("html/boxes") {
+		root := fn
+		for root.Parent() != nil {
+			root = root.Parent()
+		}
+		if _, ok := want[root.Name()]; !ok {
+			continue
+		}
+		core.Instrs(fn, func(in ssa.Instruction) {
+			call, ok := in.(*ssa.Call)
+			if !ok {
+				return
+			}
+			name := ""
+			var recv ssa.Value
+			if call.Call.IsInvoke() {
+				name, recv = call.Call.Method.Name(), call.Call.Value
+			} else if cal := call.Call.StaticCallee(); cal != nil && len(call.Call.Args) > 0 {
+				name, recv = cal.Name(), call.Call.Args[0]
+			}
+			if name != "IsInstance" {
+				return
+			}
+			if k, ok := recv.(*ssa.Const); ok && k.Value != nil {
+				if nm, ok := typeNames[k.Value.ExactString()]; ok {
+					if found[root.Name()] == nil {
+						found[root.Name()] = map[string]bool{}
+					}
+					found[root.Name()][nm] = true
+				}
+			}
+		})
+	}
+	var names []string
+	for k := range want {
+		names = append(names, k)
+	}
+	sort.Strings(names)
+	for _, fname := range names {
+		var got []string
+		for k := range found[fname] {
+			got = append(got, k)
+		}
+		sort.Strings(got)
+		fn := p.Fn("html/boxes", fname)
+		pos := "-"
+		if fn != nil {
+			pos = p.Pos(fn.Pos())
+		}
+		r.Cond(strings.Join(got, " ") == strings.Join(want[fname], " "), "html/boxes."+fname+" | classes tested", pos, strings.Join(got, " "), fmt.Sprintf("tests the classes {%s}, CSS 2.1 names {%s}", strings.Join(got, " "), strings.Join(want[fname], " ")))
+	}
 }
